@@ -23,7 +23,8 @@
 (***************************************************************************)
 EXTENDS Integers, Sequences, FiniteSets, TLC, Json
 
-CONSTANTS MaxLines, MaxInd, MaxRewrites
+CONSTANTS MaxLines, MaxInd, MaxRewrites,
+          Pool           \* the bodies lines are drawn from (all of them, or few for deeper programs)
 
 \* lexeme = <<class, text, glue>>; glue "b" = binary operator (blanks around it are optional), "u" = unary minus
 \* (nothing may follow it but its operand), "" = ordinary
@@ -50,6 +51,10 @@ Bodies == <<
   \* raw strings: a backslash still keeps the following quote inside the literal; an even run of backslashes does not
   [kind |-> "simple", lex |-> <<N("w"), B("="), S("r\"x\\\"y\""), B("+"), S("r'[\\'\\\"]'"), B("+"), S("r\"\\\\\"")>>, rest |-> <<>>]
 >>
+
+AllBodies == 1..Len(Bodies)
+\* an assignment, the two block openers and the bracket that spans two lines: enough to close several blocks at once
+DeepPool == {1, 4, 5, 6}
 
 VARIABLES prog,     \* sequence of [ind, body]
           layout,   \* [unit, blank, cline, tcomment, trail, tight, contind, bslash]
@@ -87,7 +92,7 @@ Rewrite(f, v) ==
   /\ UNCHANGED <<prog, phase>>
 
 Next ==
-  \/ \E ind \in 0..MaxInd, b \in 1..Len(Bodies) : AddLine(ind, b)
+  \/ \E ind \in 0..MaxInd, b \in Pool : AddLine(ind, b)
   \/ Finish
   \/ \E u \in Units : Rewrite("unit", u)
   \/ \E i \in 1..Len(prog) : \E f \in {"blank", "cline", "tcomment", "trail"} : Rewrite(f, i)
